@@ -419,6 +419,14 @@ def execute(scn, L):
         from dsim.world import rewrite_header
         contents = [i for i, r in enumerate(ref) if '_eff' in r]
         nd = 0
+        # bounded work per file (each evaluation reads the whole file and
+        # parses it with the reference parser): an evenly spaced subset of
+        # the content sections of a very large / very long file
+        lim = max(1, (40000000 // max(1, len(intact))) //
+                  max(1, len(scn['length_deltas'])))
+
+        if len(contents) > lim:
+            contents = contents[::-(-len(contents) // lim)]
 
         for i in contents:
             hs, he, ce = spans[i]
